@@ -169,7 +169,8 @@ pub fn run(rep: &Report) {
         let before = rep.evals();
         par_for(rep, items.len(), |i, l| {
             let (ti, s, f) = &items[i];
-            run_cred(&ts[*ti], s, &Cfg { fmt: *f, ..Cfg::CHEAP }, depth, fine, l);
+            // decoys on for every other credential: a holder built from a presentation sees decoy digests too
+            run_cred(&ts[*ti], s, &Cfg { fmt: *f, decoys: i % 2 == 1, ..Cfg::CHEAP }, depth, fine, l);
         });
         rep.scope_done(json!({"scope": name, "credentials": items.len(), "chains": rep.evals() - before}));
     }
